@@ -41,7 +41,7 @@ func main() {
 		if err := os.MkdirAll(dir, 0o755); err != nil {
 			panic(err)
 		}
-		opts := progen.GenOpts{MaxTasks: *maxTasks, Emitters: k%2 == 1, AutoInstr: k%4 == 3, Modifier: *kind == "modifier"}
+		opts := progen.GenOpts{MaxTasks: *maxTasks, Emitters: k%3 != 0, AutoInstr: k%6 == 5, Modifier: *kind == "modifier"}
 		if opts.Modifier {
 			// modifier mode is specified for Params, Results, Concurrency and plain Tasks only
 			opts.Emitters, opts.AutoInstr = false, false
